@@ -10,6 +10,9 @@ EXTRA = {  # additional checks that are expected to see a change, besides the pr
     # business of the schedule-quantified sibling (first use: C09, test scopes: C11); tag-map aliasing is C04's
     "C03-3a": ["C01"], "C05-3a": ["C07"], "C10-3a": ["C09"], "C10-3b": ["C06", "C04"], "C09-3b": ["C05"], "C11-3b": ["C20"],
     "C13-3a": ["C14"], "C16-3a": ["C12"], "C17-3a": ["C02"], "C17-3b": ["C20"], "C12-3b": ["C13"], "C08-3b": ["C07"], "C07-3b": ["C08"],
+    "C01-4b": ["C04", "C05"], "C02-4a": ["C09"], "C03-4a": ["C09"], "C03-4b": ["C17"], "C04-4a": ["C11"], "C05-4a": ["C09"], "C05-4b": ["C04"],
+    "C08-4a": ["C02"], "C09-4a": ["C20"], "C09-4b": ["C17"], "C10-4a": ["C14", "C13"], "C14-4a": ["C12", "C13"], "C14-4b": ["C13"], "C16-4a": ["C12"],
+    "C17-4a": ["C07"], "C20-4a": ["C12"],
     "C03-2b": ["C09"], "C05-2b": ["C09"], "C10-2a": ["C11", "C09"], "C05-2a": ["C04"], "C06-2b": ["C04"], "C01-2b": ["C07"],
 }
 
